@@ -997,7 +997,7 @@ def m_str(ex, st, fr, path, args, m):
     return NotImplemented
 
 
-@model(r"^(?:(core|std)::str::)?(from_utf8_unchecked|from_utf8)$|^(core|std)::str::converts::(from_utf8_unchecked|from_utf8)$")
+@model(r"^(?:(core|std)::str::(?:<impl str>::)?)?(from_utf8_unchecked|from_utf8)$|^(core|std)::str::converts::(from_utf8_unchecked|from_utf8)$")
 def m_from_utf8(ex, st, fr, path, args, m):
     r = args[0]
     rr = slice_ref(r)
@@ -1113,6 +1113,8 @@ def m_into_iter(ex, st, fr, path, args, m):
     if isinstance(a, Ref):
         el, lo, hi = seq_of(a)
         return IterV("slice", ref=slice_ref(a), pos=0, end=hi - lo)
+    if isinstance(a, Agg) and a.kind == "struct" and m.group(1).split("<")[0].split("::")[-1] == (a.name or ""):
+        return a      # blanket `impl<I: Iterator> IntoIterator for I` on a crate-defined iterator
     return NotImplemented
 
 
